@@ -56,6 +56,18 @@ CHECKS["C09"] = dict(
     technique="TLC trace validation of API executions against a TLA+ contract; TLC model checking of the contract's gap/overlap arithmetic",
 )
 
+CHECKS["C13"] = dict(
+    category="model_checking",
+    text=_API + "C13: definition/user-data programs with ids from {1,2,3,100,254,255} and invalid {0,256,257,65535}, duplicates, missing sources, "
+         "data/annotation/UTC/omit calls for undefined signals, absent/empty/UTF-8/long strings (to > 2 MiB, around the 1 MiB string block), user data "
+         "0 B..3 MB with 16-bit tags and all storage types; judged: return codes (accepted iff the contract says so), 'no backend I/O during a refused call', "
+         "jls_rd_sources / jls_rd_signals / jls_rd_signal (normalised parameters computed by SigDef.tla) / jls_rd_user_data incl. stopped iteration. "
+         "JlsApiDefs.tla model-checks the identity rules of the contract for all short call orders.",
+    design_ref="DESIGN.md section 6 C13, section 12",
+    note="Trusted: as C01; strings/payloads are compared through 64-bit BLAKE2 tokens; a definition whose strings exceed the 1 MiB string block may be refused.",
+    technique="TLC trace validation of API executions against a TLA+ contract; TLC model checking of the contract's identity rules",
+)
+
 NOT_YET = {}
 
 
